@@ -47,7 +47,12 @@ def run_worker(job):
     env.pop('PYTHON_MINIFIER_VERIF', None)
     t0 = time.time()
     try:
-        p = subprocess.run([PY, WORKER, job['path'], job['fn'], json.dumps(spec)], capture_output=True, text=True,
+        py = PY
+        if job.get('python') == 'py311':
+            # second interpreter (pre-PEP 701 paths): the tooling venv has crosshair; the package is stdlib-only
+            py = 'python3-vt'
+            env['PYTHONPATH'] = os.path.join(os.environ.get('VERIF_REPO', '/repo'), 'src') + ':' + VERIF
+        p = subprocess.run([py, WORKER, job['path'], job['fn'], json.dumps(spec)], capture_output=True, text=True,
                            timeout=hard, env=env, cwd=VERIF)
         out = p.stdout
         res = None
@@ -141,12 +146,12 @@ def main():
             sh = list(sh) if isinstance(sh, (list, tuple)) else [sh]
             jobs.append(dict(path=path, fn=ob['fn'], extra_pre=sh + excl, timeout=ob.get('timeout', 60),
                              per_path_timeout=ob.get('per_path_timeout'), expect=ob.get('expect', 'confirmed'),
-                             obligation=ob['name'], kind='main',
+                             obligation=ob['name'], kind='main', python=ob.get('python'),
                              label='%s[%d/%d]' % (ob['name'], si + 1, len(shards))))
         for f in kn:
             jobs.append(dict(path=path, fn=ob['fn'], extra_pre=[f['predicate']], timeout=ob.get('timeout', 60),
                              per_path_timeout=ob.get('per_path_timeout'), expect='known', obligation=ob['name'],
-                             kind='known', finding=f, label='%s[known:%s]' % (ob['name'], f['id'])))
+                             kind='known', finding=f, python=ob.get('python'), label='%s[known:%s]' % (ob['name'], f['id'])))
     # longest first
     jobs.sort(key=lambda j: -j['timeout'])
     results = []
